@@ -27,6 +27,8 @@ type Options struct {
 	ActionOf func(k int) string
 	// NoUnion omits the %union block
 	NoUnion bool
+	// OneLineRules writes the whole rule section on a single physical line (a "minified" grammar)
+	OneLineRules bool
 }
 
 type lex struct {
@@ -354,7 +356,15 @@ func Render(g *spec.Grammar, p Parts, o Options) string {
 			rules[len(rules)-1].nl = true
 		}
 	}
-	text := join(r, decl) + join(r, rules)
+	rulesText := join(r, rules)
+	if o.OneLineRules {
+		var parts []string
+		for _, l := range rules {
+			parts = append(parts, strings.ReplaceAll(l.s, "\n", " "))
+		}
+		rulesText = strings.Join(parts, " ") + "\n"
+	}
+	text := join(r, decl) + rulesText
 	if p.Epilogue == "" && o.NoSecondMarker {
 		return text
 	}
